@@ -21,7 +21,8 @@ def main():
     env = {"PYTHONPATH": wt + "/blackbird_python"}
     rec = {"property": pid}
     # the worktree is brought to exactly HEAD + patch.diff (git stash is shared between worktrees, so it is not used)
-    sh("git checkout -q . && git apply %s/patch.diff" % out, wt)
+    head = sh("git -C /repo rev-parse HEAD", "/")[1].strip()
+    sh("git checkout -q . && git checkout -q --detach %s && git apply %s/patch.diff" % (head, out), wt)
     rc, o = sh("git diff --stat | tail -1", wt)
     rec["diffstat"] = o.strip()
     rc, o = sh(PY + " -m pytest -q -p no:cacheprovider blackbird_python 2>&1 | tail -1", wt, env)
